@@ -276,6 +276,29 @@ pub fn decls(seed: u64, thorough: bool) -> Vec<Decl> {
         out.push(d);
     }
 
+    // standard validators mixed with a custom `with`/`error` pair, in every order: the union of the
+    // written rules must be enforced (or the declaration rejected)
+    for (inner, m, std_text, std_val, cust) in [
+        (Inner::Int(IntTy::I32), "fi32", "greater_or_equal = 3", ValSpec::GreaterEq(lit_i(3)), "v_small"),
+        (Inner::F64, "ff64", "greater_or_equal = 3.0", ValSpec::GreaterEq(lit_f(3.0)), "v_small"),
+        (Inner::Str, "fstr", "len_char_min = 3", ValSpec::LenCharMin(lit_u(3)), "v_nobang"),
+        (Inner::VecI32, "fvec", "predicate = fvec::p_nonempty", ValSpec::Predicate(FnRef::new("p_nonempty", FnForm::Path)), "v_sum"),
+    ] {
+        let w = format!("with = {m}::{cust}");
+        let e = "error = CustomErr".to_string();
+        for (oi, order) in [[0usize, 1, 2], [1, 2, 0], [1, 0, 2], [0, 2, 1], [2, 1, 0], [2, 0, 1]].iter().enumerate() {
+            let parts = [std_text.to_string(), w.clone(), e.clone()];
+            let attr = format!("validate({})", order.iter().map(|i| parts[*i].clone()).collect::<Vec<_>>().join(", "));
+            let mut d = Decl::new(inner);
+            d.raw_attr = Some(attr);
+            // model: the standard rule AND the custom rule (as a predicate)
+            d.vals = Vals::Std(vec![std_val.clone(), ValSpec::Predicate(FnRef::new(&format!("p_{cust}"), FnForm::Path))]);
+            d.opaque_err = true;
+            d.tags = vec![format!("c02:layout:standard-mixed-with-custom:order{oi}")];
+            out.push(d);
+        }
+    }
+
     // C. seed-dependent random combinations: spelling × kind × type, two bounds, random layout
     let mut r = runner(seed);
     let n_random = if thorough { 400 } else { 80 };
@@ -306,6 +329,9 @@ pub fn decls(seed: u64, thorough: bool) -> Vec<Decl> {
             d.tags.push(format!("c02:spelling2:{c2}"));
         }
         out.push(d);
+    }
+    for d in out.iter_mut() {
+        d.opaque_err = true;
     }
     finalize(out, "s")
 }
